@@ -5,7 +5,7 @@ over the alphabet below, every handler invocation choosing its behaviour (defaul
 "return None"; anything else is a deviation, bounded).  Oracle: a small reference model of
 subscriptions, evaluated online.
 """
-import gc, io, logging, sys
+import gc, io, itertools, logging, sys
 from mc.engine import explore, pmap, Ctx
 from mc.report import Report
 
@@ -13,7 +13,8 @@ PID = "C05"
 
 # handler behaviours (index 0 is the default)
 BEH = ["none", "True", "False", "EventHalt", "EventRemove", "EventHaltAndRemove",
-       "raise", "re-sub-p0", "re-sub-p1", "re-unsub-next", "re-unsub-first", "re-raise", "re-unsub-first-token", "re-drop-weak"]
+       "raise", "re-sub-p0", "re-sub-p1", "re-unsub-next", "re-unsub-first", "re-raise", "re-unsub-first-token", "re-drop-weak",
+       "re-clear"]
 NH = 3            # handler identities available to top-level ops (+ fresh ones for re-sub)
 
 
@@ -40,7 +41,7 @@ def hermetic_reset (rv):
       snap = {}
       for k, v in list(vars(holder).items()):
         if k.startswith("__"): continue
-        if isinstance(v, (dict, set, list, int)) and not isinstance(v, bool): snap[k] = copy.copy(v)
+        if isinstance(v, (dict, set, list, int, itertools.count)) and not isinstance(v, bool): snap[k] = copy.copy(v)
       _PRISTINE[name] = snap
     return
   import copy
@@ -49,7 +50,7 @@ def hermetic_reset (rv):
     for k, v in list(vars(holder).items()):
       if k.startswith("__"): continue
       if k in snap:
-        if vars(holder)[k] != snap[k] or isinstance(v, (dict, set, list)): setattr(holder, k, copy.copy(snap[k]))
+        if isinstance(v, (dict, set, list, itertools.count)) or vars(holder)[k] != snap[k]: setattr(holder, k, copy.copy(snap[k]))
       elif isinstance(v, (dict, set, list, int)) and not isinstance(v, bool) and not callable(v):
         # state that did not exist at import time (created lazily on the class / module)
         try: delattr(holder, k)
@@ -232,6 +233,11 @@ class World (object):
       for s in d.snapshot:
         if s.weak and s.alive and s.hid != hid and s.hid in self.owners:
           self.do_drop(s.hid); break
+      return None
+    if name == "re-clear":
+      # the handler drops every subscription of the source (clearHandlers) in the middle of the delivery
+      self.src.clearHandlers()
+      self.model_remove(lambda x: True, d)
       return None
     if name == "re-raise":
       if len(self.stack) < 2:
